@@ -8,6 +8,9 @@ from harness.props.c02 import gen_cfg
 
 TARGETS = ["theories/Props/C12.vo", "theories/Proofs/GenEq_Groups.vo"]
 GENEQ = {"theories/Proofs/GenEq_Groups.vo": "Groups"}
+# units added to the cone after round 2 of the seeded changes (a refused / changed unit must be noticed by this check too)
+TARGETS = TARGETS + ["theories/Proofs/GenEq_EvalSM.vo"]
+GENEQ = dict(GENEQ, **{"theories/Proofs/GenEq_EvalSM.vo": "EvalSM"})
 ALLOWED_AXIOMS = []
 RULE = ("implementation-vs-implementation: evaluate with SegmentationClassGroups vs evaluate WITHOUT groups on the two arrays restricted to the "
         "group's labels (binarised for a merge group; as matched input, one instance, no decision filtering for a single-instance group); random "
